@@ -11,6 +11,8 @@ After the loop the state is the havoc state (plus not-guard for `while`), or the
 Termination is NOT proved.  Loops whose variable is read after the loop are assumed to run at least once (noted).
 """
 import ast
+import os
+import sys
 import z3
 
 import contracts as C
@@ -458,6 +460,10 @@ def one_loop(ex, st, p, it, module, is_for, inv, target, ordinal, optional=froze
   for attempt in range(10):
     head = p.fork()
     for k in ttbad:
+      if isinstance(k, tuple):
+        if k[1] in head.store:
+          head.store[k[1]] = head.store[k[1]].replace(tt='bad')
+        continue
       tgt_ = head.env.get(k) if not k.startswith('self.') else (head.heap[selfv.oid].get(k[5:]) if isinstance(selfv, VObj) else None)
       if isinstance(tgt_, VArr):
         head.store[tgt_.loc] = head.store[tgt_.loc].replace(tt='bad')
@@ -535,6 +541,14 @@ def one_loop(ex, st, p, it, module, is_for, inv, target, ordinal, optional=froze
           for a_ in attrs:
             if a_ in head_attrs and a_ in q.heap[selfv.oid]:
               same_type(ex, q, head_attrs[a_], q.heap[selfv.oid][a_], 'self.' + a_, st)
+      # arrays updated IN PLACE keep their location: compare the ghost translation type of every location live at the head
+      for q in ends:
+        for loc_, s0 in head.store.items():
+          s1 = q.store.get(loc_)
+          if s1 is not None and (s0.tt or 'inv') != (s1.tt or 'inv') and (s0.tt or 'inv') != 'bad':
+            if os.environ.get('VERIF_DEBUG_TT'):
+              print('TT', loc_, s0.tt, '->', s1.tt, [k for k, v in q.env.items() if isinstance(v, VArr) and v.loc == loc_], file=sys.stderr)
+            raise TTWiden(('loc', loc_))
     except Widen as w:
       if w.name in widened:
         raise Unsupported('loop line %d: variable %s keeps changing numeric type' % (st.lineno, w.name))
